@@ -49,14 +49,15 @@ VARIABLES tid, l, envbad,
           s1,     \* vector in the first register stage (<<>>: reset content)
           s2,     \* vector whose code is visible (<<>>: reset content, not judged)
           rd,     \* running disparity before s2 (or before s1 / the next vector while s2 = <<>>)
-          ok
-vars == <<tid, l, envbad, s1, s2, rd, ok>>
+          ok,     \* verdict about the cycle consumed last
+          dead    \* a verdict of this trace was already negative (reported once, then silent)
+vars == <<tid, l, envbad, s1, s2, rd, ok, dead>>
 
 C == T[tid].cfg
 Tb == TabIdx(C.lsb)
 
 Init == /\ tid \in 1..Len(T) /\ l = 1 /\ envbad = FALSE
-        /\ s1 = <<>> /\ s2 = <<>> /\ rd = 2 /\ ok = TRUE
+        /\ s1 = <<>> /\ s2 = <<>> /\ rd = 2 /\ ok = TRUE /\ dead = FALSE
 
 EncStep(e) ==
   LET ce == e[1]  xs == e[2]  outs == e[3]  disps == e[4]
@@ -82,12 +83,13 @@ DecStep(e) ==
 Next ==
   /\ l <= Len(T[tid].ev)
   /\ IF C.kind = "enc" THEN EncStep(T[tid].ev[l]) ELSE DecStep(T[tid].ev[l])
+  /\ dead' = (dead \/ ~ok)
   /\ l' = l + 1 /\ tid' = tid
 
 EnvLegal == ~envbad                       \* harness obligation, not a property of the code
 (* word i+1 is encoded with word i's output disparity, the first word with the last word's of the *)
 (* previous enabled cycle; codes and disparity outputs equal the chained single-symbol table      *)
-DisparityChaining   == C.kind = "enc" => ok
+DisparityChaining   == C.kind = "enc" => (ok \/ dead)
 (* the decoder's d / k / invalid are the table's entry for the word sampled at the last enabled edge *)
-DecoderFollowsTable == C.kind = "dec" => ok
+DecoderFollowsTable == C.kind = "dec" => (ok \/ dead)
 =============================================================================
